@@ -196,7 +196,7 @@ class Ctx:
         sys.modules[self.mod.__name__] = self.mod
         g = self.mod.__dict__
         g.update({n: getattr(typing, n) for n in ("Any", "List", "Set", "FrozenSet", "Deque", "Tuple", "Dict", "Optional", "Union",
-                                                  "Generator", "Annotated")})
+                                                  "Generator", "AsyncGenerator", "Annotated")})
         g.update(Schema=Schema, Field=Field, Options=Options, Rule=Rule, utype=utype, combine=LogicalType.combine,
                  NoneType=type(None), Decimal=Decimal, UUID=UUID, date=date, datetime=datetime, time=time,
                  timedelta=timedelta, deque=deque)
@@ -252,9 +252,15 @@ class Ctx:
             for c in (0, 1):
                 g[f"TOPO{c}"] = make_options(case.get("opts") or {}, bool(c))
                 g[f"SEEN{c}"] = []
-                src += (f"@utype.parse(options=TOPO{c}, eager={bool(gd.get('eager'))})\n"
-                        f"def topg{c}(yv, rv) -> Generator[{', '.join(slots)}]:\n"
-                        f"    for y in yv:\n        s = yield y\n        SEEN{c}.append(s)\n    return rv\n")
+                if gd.get("async"):
+                    # an async generator has no return slot
+                    src += (f"@utype.parse(options=TOPO{c}, eager={bool(gd.get('eager'))})\n"
+                            f"async def topg{c}(yv, rv) -> AsyncGenerator[{', '.join(slots[:2])}]:\n"
+                            f"    for y in yv:\n        s = yield y\n        SEEN{c}.append(s)\n")
+                else:
+                    src += (f"@utype.parse(options=TOPO{c}, eager={bool(gd.get('eager'))})\n"
+                            f"def topg{c}(yv, rv) -> Generator[{', '.join(slots)}]:\n"
+                            f"    for y in yv:\n        s = yield y\n        SEEN{c}.append(s)\n    return rv\n")
         if via in ("field", "param", "return", "fn"):
             from utype import Param
             for c in (0, 1):
@@ -266,7 +272,7 @@ class Ctx:
                 elif via == "param":
                     src += f"@utype.parse(options=TOPO{c})\ndef topf{c}(" + self.decl(top, -1, "TOPF", Param, dict(fc)) + "):\n    return f\n"
                 elif via == "return":
-                    src += f"@utype.parse(options=TOPO{c})\ndef topr{c}(f) -> {self.ann(case, -1)}:\n    return f\n"
+                    src += f"@utype.parse(options=TOPO{c})\n{'async ' if case.get('async') else ''}def topr{c}(f) -> {self.ann(case, -1)}:\n    return f\n"
                 else:
                     fn = case["fn"]
                     parts, names = [], []
@@ -833,6 +839,9 @@ def build_call(case, ctx, collect):
         return (lambda v: fn(f=v)), ("param", fn), g[f"TOPO{c}"]
     if via == "return":
         fn = g[f"topr{c}"]
+        if case.get("async"):
+            import asyncio
+            return (lambda v: asyncio.run(fn(f=v))), ("return", fn), g[f"TOPO{c}"]
         return (lambda v: fn(f=v)), ("return", fn), g[f"TOPO{c}"]
     if via == "fn":
         fn = g[f"topfn{c}"]
@@ -841,8 +850,25 @@ def build_call(case, ctx, collect):
         fn = g[f"topg{c}"]
         seen = g[f"SEEN{c}"]
 
+        async def arun(v):
+            gen = fn(list(v["yields"]), v["ret"])
+            outs, i = [], 0
+            try:
+                item = await gen.__anext__()
+                while True:
+                    outs.append(item)
+                    snd = v["sends"][i] if i < len(v["sends"]) else None
+                    i += 1
+                    item = await (gen.asend(snd) if snd is not None else gen.__anext__())
+            except StopAsyncIteration:
+                pass
+            return {"yields": outs, "sent": list(seen), "ret": None}
+
         def run(v):
             del seen[:]
+            if case["gen"].get("async"):
+                import asyncio
+                return asyncio.run(arun(v))
             gen = fn(list(v["yields"]), v["ret"])
             outs, i = [], 0
             try:
@@ -2237,6 +2263,10 @@ def gen_gen_case(rng):
         return {"gen": "dict", "args": [{"t": "str"}, {"t": "int"}], "style": "typing"}
     gd = {"yield": sty() if rng.random() < 0.7 else None, "send": sty() if rng.random() < 0.4 else None,
           "ret": sty() if rng.random() < 0.85 else None, "eager": rng.random() < 0.5}
+    if rng.random() < 0.25:
+        gd["async"] = True
+        gd["ret"] = None
+        gd["yield"] = gd["yield"] or sty()
     if gd["yield"] is None and gd["ret"] is None:
         gd["ret"] = sty()
 
@@ -2247,7 +2277,7 @@ def gen_gen_case(rng):
             return rng.choice(pools()["int"])
         pv = pick_valid(rng, ty) if rng.random() < 0.6 else None
         return (pv if rng.random() < 0.5 else _as_text(pv)) if pv is not None else gen_value(rng, ty, None, 0.9)
-    n = rng.choice([0, 1, 1, 2])
+    n = rng.choice([0, 1, 1, 2]) if not gd.get("async") else rng.choice([1, 1, 2, 3])
     value = {"yields": [val(gd["yield"], 0.15) for _ in range(n)],
              "sends": [val(gd["send"], 0.15) if rng.random() < 0.7 else None for _ in range(n)] if gd["send"] is not None else [],
              "ret": val(gd["ret"], 0.45) if rng.random() < 0.9 else None}
@@ -2339,6 +2369,8 @@ def gen_cases(tier, rng, n):
             continue
         # `from __future__ import annotations` in the declaring module (all annotations are strings) or real objects
         c["future"] = rng.random() < 0.3
+        if c["via"] == "return" and rng.random() < 0.25:
+            c["async"] = True            # `async def`: the awaited result goes through the return annotation
         if c["future"] and c.get("lates") and _any_annotated(c):
             # a whole-string `Annotated['Later', ...]` that cannot be resolved at declaration never parses at all
             # (TypeError on every call / "unrecognized type"): no result to judge
@@ -2754,7 +2786,7 @@ class C01(Check):
         shape = _shape(d)
         if case["via"] == "gen":
             gd = case["gen"]
-            shape = "gen(" + ";".join(_shape(gd[x]) if gd.get(x) is not None else "-" for x in ("yield", "send", "ret")) + (";eager" if gd.get("eager") else "") + ")"
+            shape = "gen(" + ";".join(_shape(gd[x]) if gd.get(x) is not None else "-" for x in ("yield", "send", "ret")) + (";eager" if gd.get("eager") else "") + (";async" if gd.get("async") else "") + ")"
             vc = f"{len(case['value']['yields'])}y{len(case['value']['sends'])}s:{_vclass(case['value']['ret'])}"
         elif case["via"] == "fn":
             fn = case["fn"]
@@ -2767,6 +2799,8 @@ class C01(Check):
             shape += "|Annotated"
         if case.get("future") is False:
             shape += "|objann"
+        if case.get("async"):
+            shape += "|async"
         if case.get("lates"):
             shape += "|late:" + ",".join(_shape(l) for l in case["lates"]) + ("|fcons" if case.get("fcons") else "")
         if any(x.get("base") is not None for x in case.get("datas", [])):
@@ -2780,7 +2814,7 @@ class C01(Check):
             return "declaration rejected"
         d = case["ty"]
         if case["via"] == "gen":
-            top = "generator(" + "".join(x[0] if case["gen"].get(x) is not None else "-" for x in ("yield", "send", "ret")) + ")"
+            top = ("async " if case["gen"].get("async") else "") + "generator(" + "".join(x[0] if case["gen"].get(x) is not None else "-" for x in ("yield", "send", "ret")) + ")"
         elif case["via"] == "fn":
             top = "fn(" + ("*" if case["fn"].get("varargs") is not None else "") + ("**" if case["fn"].get("varkw") is not None else "") + ")"
         elif d == "any" or "t" in d or "enum" in d or "obj" in d:
